@@ -243,7 +243,13 @@ impl BinaryDeserializer for Duration {
     fn deserialize(context: &mut DeserializationContext<'_>) -> Result<Self> {
         let seconds = context.read_u64()?;
         let nanos = context.read_u32()?;
-        Ok(Duration::new(seconds, nanos))
+        // Duration::new panics when the nanosecond carry overflows the seconds
+        match Duration::new(seconds, 0).checked_add(Duration::new(0, nanos)) {
+            Some(duration) => Ok(duration),
+            None => Err(Error::DeserializationFailure(
+                "Failed to deserialize Duration: seconds overflow".to_string(),
+            )),
+        }
     }
 }
 
